@@ -482,7 +482,7 @@ fn drive16(o: &mut Out, thorough: bool, seed: u64, threads: usize) {
     }
     let f64enc = |x: f64| guarded(|| pp_enc64(x) as i32);
     emit_f64(o, PP, &f64enc, &f64_specials(PP_MIN));
-    let fstride = if thorough { 1 } else { 4 };
+    let fstride = if thorough { 4 } else { 16 };
     for &(p, b) in bps.iter().step_by(fstride) { emit_f64(o, PP, &f64enc, &f64_around(p, b)); }
     for k in (0..=65535usize).step_by(dec_stride).chain([65535usize]) {
         let k = k as u16;
@@ -561,12 +561,14 @@ where
     curve_group::<F>(o, enc, "dec", &ys, &|y| E::into_linear(y), &|x| E::from_linear(x));
 }
 
-fn drive_curves(o: &mut Out, thorough: bool, seed: u64) {
-    let dense = if thorough { 800 } else { 40 };
+fn drive_curves(o: &mut Out, thorough: bool, seed: u64, only: Option<&str>) {
+    let dense = if thorough { 800 } else { 32 };
     const RB: f64 = 0.018053968510807;
     macro_rules! both { ($E:ty, $name:expr, $kx:expr, $ky:expr) => {
-        curves_of::<$E, f32>(o, $name, $kx, $ky, dense, seed);
-        curves_of::<$E, f64>(o, $name, $kx, $ky, dense, seed);
+        if only.map_or(true, |x| x == $name) {
+            curves_of::<$E, f32>(o, $name, $kx, $ky, dense, seed);
+            curves_of::<$E, f64>(o, $name, $kx, $ky, dense, seed);
+        }
     }; }
     both!(pe::Srgb, "srgb", &[0.0031308, 0.04045 / 12.92, 0.00304], &[0.04045, 12.92 * 0.0031308, 0.03928]);
     both!(pe::RecOetf, "rec_oetf", &[0.018, RB, 0.0181], &[0.081, 4.5 * RB, 0.0815]);
@@ -777,8 +779,8 @@ fn run_one(o: &mut Out, e: &Value, threads: usize) {
                 }
             }
         }
-        // curves and forms are cheap: run the whole family again at thorough density
-        "curve" | "reset" => drive_curves(o, true, seed_from_env()),
+        // curves: the curve of the event again at thorough density (both types and directions); forms: all of them
+        "curve" | "reset" => drive_curves(o, true, seed_from_env(), Some(enc)),
         "form" => drive_forms(o, seed_from_env()),
         other => panic!("unknown event kind {}", other),
     }
@@ -824,7 +826,7 @@ fn main() {
         drive8::<EP3>(&mut o, thorough, seed, threads);
     }
     if want("u16") { drive16(&mut o, thorough, seed, threads); }
-    if want("curves") { drive_curves(&mut o, thorough, seed); }
+    if want("curves") { drive_curves(&mut o, thorough, seed, None); }
     if want("forms") { drive_forms(&mut o, seed); }
     if let Some(h) = arg("--hist") { run_hist(&mut o, &h); }
     let (counts, panics, evals) = (o.counts.clone(), o.panics, o.evals);
